@@ -119,3 +119,28 @@ def container_readers(ctx):
             out.append(c)
     ctx._cache['container_readers'] = out
     return out
+
+
+def default_block_types(ctx):
+    """The block token classes of the default parser configuration (HtmlRenderer without options), in order."""
+    cfgs = [c for c in ctx.configs() if c.label == 'HtmlRenderer' and not c.options]
+    if not cfgs:
+        raise AnalysisError('no default HtmlRenderer configuration')
+    return list(cfgs[0].block_types)
+
+
+def parse_buffers(v, out=None):
+    """The ParseBuffer objects inside a reader's result, in order of appearance, whatever the layout around them."""
+    from .interp import Obj
+    out = [] if out is None else out
+    if isinstance(v, Obj):
+        if v.cls.name == 'ParseBuffer':
+            out.append(v)
+        return out
+    if isinstance(v, (list, tuple)):
+        for x in v:
+            parse_buffers(x, out)
+    elif isinstance(v, dict):
+        for x in v.values():
+            parse_buffers(x, out)
+    return out
